@@ -99,6 +99,13 @@ def make_types(rng):
         return f"{v:03b}"
     add(PT("SELE_T", ["pt", S("SELE_T"), ["enum"] + [[f"i{k}", S(f"S{k}")] for k in range(8)],
                       ["int", "3", S("unsigned"), S(MSB), NOCAL]], 3, sele, control=True))
+    # an enumeration over 64 bits whose values lie beyond 2**53 (each is an exact integer, in a document too)
+    big_keys = [2 ** 53 + 1, 2 ** 53 + 2, 2 ** 63, 2 ** 64 - 1, 7]
+
+    def en64(rng, c=None):
+        return f"{rng.choice(big_keys):064b}"
+    add(PT("ENUM64_T", ["pt", S("ENUM64_T"), ["enum"] + [[f"i{k}", S(f"BIG_{i}")] for i, k in enumerate(big_keys)],
+                        ["int", "64", S("unsigned"), S(MSB), NOCAL]], 64, en64))
     # several encoded values with one label (legal: "the label of a value" is a function, not an injection): the raw value
     # still tells them apart, packet after packet
     add(PT("ENUMDUP_T", ["pt", S("ENUMDUP_T"), ["enum", ["i0", S("IDLE")], ["i1", S("BUSY")], ["i2", S("BUSY")], ["i3", S("IDLE")]],
@@ -376,13 +383,17 @@ class Defn:
                 uc = rng.random() < 0.5
                 ch.criteria = [c06.cmp_sx(selector[0], "==", f"S{k}" if uc else str(k), uc)]
             elif style < 0.7:
-                ch.criteria = [c06.cmp_sx(selector[0], "==", str(k), rng.random() < 0.8)]
+                # the literal is text that *denotes* the number (leading zero, sign, blanks are all `int()`-readable), and
+                # the operator comes in either spelling
+                lit = rng.choice([str(k)] * 5 + [f"0{k}", f"+{k}", f" {k} ", f"00{k}"])
+                ch.criteria = [c06.cmp_sx(selector[0], rng.choice(["==", "==", "eq"]), lit, rng.random() < 0.8)]
             elif style < 0.8:
-                ch.criteria = [c06.cmp_sx(selector[0], ">=", str(k), True), c06.cmp_sx(selector[0], "<=", str(k), True)]
+                ch.criteria = [c06.cmp_sx(selector[0], rng.choice([">=", "geq", "&gt;="]), str(k), True),
+                               c06.cmp_sx(selector[0], rng.choice(["<=", "leq", "&lt;="]), str(k), True)]
             elif style < 0.9:
-                ch.criteria = [["bexpr", ["or", [c06.cond_sx(selector[0], "==", None, str(k), True, False)],
-                                          [["and", [c06.cond_sx(selector[0], ">=", None, str(k), True, False),
-                                                    c06.cond_sx(selector[0], "<", None, str(k + 1), True, False)], []]]]]]
+                ch.criteria = [["bexpr", ["or", [c06.cond_sx(selector[0], rng.choice(["==", "eq"]), None, str(k), True, False)],
+                                          [["and", [c06.cond_sx(selector[0], rng.choice([">=", "geq"]), None, str(k), True, False),
+                                                    c06.cond_sx(selector[0], rng.choice(["<", "lt"]), None, str(k + 1), True, False)], []]]]]]
             else:
                 # deliberately overlapping with a sibling now and then
                 ch.criteria = [c06.cmp_sx(selector[0], ">=", str(k), True)]
